@@ -5,13 +5,18 @@ async data function ``g`` awaits numbered gates; a controller coroutine
 releases the gates in a prescribed global order, so exactly one task runs at a
 time and the interleaving of the tasks' await points is the order.  All orders
 are enumerated (sampled above a cap).  Oracle: each task's output equals the
-output of the same (template, data) rendered alone in a fresh environment."""
+output of the same (template, data) rendered alone in a fresh environment.  State
+that is global to the process is shared by concurrent tasks too: the first renders
+of every shard process serve as alone-outputs of an untouched process, and every
+task is rendered alone again after the schedules of its case."""
 from __future__ import annotations
 
 import asyncio
+import re
 
 from vt import core
 from vt.mon import c37_gen as GEN
+from vt.mon import c37_kinds as KN
 
 PID = "C37"
 LEVEL = "exploration"
@@ -29,7 +34,20 @@ RULE = ("case = generated template set (import library cached per environment, w
         "data-dependent / nested / around caller()) and imported probe macros whose output depends "
         "on the eval context they are handed (join / replace / xmlattr / urlize over text + Markup, a "
         "sibling macro call, a pass_eval_context harness function), drawn like any fragment and "
-        "forced into every second such case as task 0 = block macro, task 1 = probe) x 2-3 tasks (same or different "
+        "forced into every second such case as task 0 = block macro, task 1 = probe; KINDS OF VALUES "
+        "that pass the engine's await-if-awaitable wrapper ('awaitable-kinds' fragments, 2-9 values "
+        "each, printed as [channel.kind=...]): awaitable = native coroutine / @types.coroutine "
+        "generator-based coroutine / object with __await__ / awaitable subclass of a plain class / "
+        "awaitable base class / finished asyncio.Future / asyncio.Task (all but the Future delegate "
+        "to g(), i.e. contain a gate), plain = generator object / instance of another class with the "
+        "same name / the plain base class / subclass with __await__ = None / list iterator / range / "
+        "list, + engine-made lazy filter results (batch, slice, unique: generators; map, select: async "
+        "generators; reverse); channels = method call, function, functools.partial, callable object, "
+        "attribute, item, filter result, per-item result of |map; kinds sharing a TYPE FAMILY (same "
+        "Python type, equal class name, one class hierarchy) differ in awaitability; every third such "
+        "case pairs task 0 = starts with a plain member of a family before its first gate, task 1 = "
+        "an awaitable member behind its first gate, the first case of each shard does so for all "
+        "four mixed families) x 2-3 tasks (same or different "
         "main template, different data) x gate positions (a start gate + <=4 of the task's g() "
         "calls) x release order.  distinct = (template-set+task hash, release order) actually "
         "executed with >= 2 task switches; 'interleavings' = number of distinct orders executed. "
@@ -52,8 +70,21 @@ RULE = ("case = generated template set (import library cached per environment, w
         "library code in such a schedule gets the mechanism key interference:eval-context-of-cached-"
         "module-shared-between-tasks:suspended-in=<construct>, any other difference "
         "interference:<fragment label>; after such a schedule (and after any violation) the "
-        "long-lived environment is replaced")
-TECHNIQUE = "gate-scheduled asyncio tasks, enumerated release orders, differential vs solo render"
+        "long-lived environment is replaced. PROCESS-LEVEL STATE: new processes cost ~0.3-9 s each "
+        "on this machine, so the untouched-process reference is the shard process itself: the first "
+        "case of each shard first releases its tasks one after the other (start gates only; the "
+        "shard number decides which goes first) as the FIRST renders of the process - the first "
+        "task's output is its alone-output in a process whose engine-level state is untouched - "
+        "then renders every task alone and requires the same outputs "
+        "(first_renders_of_a_process_used_as_reference). In every case the alone renders are made "
+        "in rotated task order (shard + case number) before the schedules, and again after them "
+        "(alone_renders_after-the-schedules): a difference is keyed interference:persisted-in-"
+        "process:<fragment label>. Inside an awaitable-kinds fragment the label carries the value: "
+        "awaitable-kinds:<kind>-via-<channel>. schedules_same_type_family_plain_then_awaitable_in_"
+        "other_task / ..awaitable_then_plain.. count schedules in which a type family went through "
+        "the engine as a plain value in one task and later (earlier) as an awaitable in another")
+TECHNIQUE = ("gate-scheduled asyncio tasks, enumerated release orders, differential vs solo render; "
+             "solo renders repeated after the schedules and against the first renders of the process")
 LEVEL_TEXT = ("held on the executed gate-release orders (all orders of each case when their number "
               "is below the cap, a uniform sample otherwise); await points are those of the data "
               "function, a start gate included")
@@ -70,6 +101,15 @@ ASSUMPTIONS = [
     "environments of one shard share a harness-side in-memory BytecodeCache (public API; compiled "
     "code objects keyed by template name + source + autoescape default): no template, module or "
     "context objects are shared",
+    "engine-level state that is global to the process is observed only through outputs: (a) the "
+    "first renders of each of the 16 shard processes (one case per process, either task order) "
+    "against alone renders made right afterwards, (b) alone renders before vs after the schedules "
+    "of every case; alone renders of later cases start from whatever state the shard process has "
+    "reached, so state that changed once and for all before a case started is not visible in that "
+    "case",
+    "awaitable kinds resolve to '<task name>.<tag>' and plain kinds print / iterate "
+    "deterministically; the Task kind runs the data function in its own asyncio task (gates are "
+    "keyed by the rendering task, not by asyncio.current_task())",
     "zone() / ectx() are harness globals called by the generated library: zone() only records, "
     "ectx() returns 'A1'/'A0' from eval_ctx.autoescape (documented pass_eval_context use)",
     "module-body races: the gated environment global returns a value that does not depend on the "
@@ -91,6 +131,18 @@ FLOORS = {
                            "schedules_with_task_suspended_inside_imported_autoescape_block": 1500,
                            "schedules_probing_eval_context_during_such_suspension": 1000,
                            "evalctx_probe_evaluations": 15000,
+                           "cases_with_awaitable_kinds_fragment": 8,
+                           "cases_same_type_family_awaitable_in_one_task_plain_in_another": 5,
+                           "kind_values_awaitable": 12000, "kind_values_plain": 18000,
+                           **{"kind_values:" + k: 400 for k in sorted(KN.KINDS)},
+                           "kind_values:engine-made-lazy-filter-result": 1500,
+                           "schedules_same_type_family_plain_then_awaitable_in_other_task": 1000,
+                           "schedules_same_type_family_awaitable_then_plain_in_other_task": 1000,
+                           "first_renders_of_a_process_used_as_reference": 8,
+                           "first_renders_of_a_process_same_type_family_plain_then_awaitable_in_other_task": 3,
+                           "first_renders_of_a_process_same_type_family_awaitable_then_plain_in_other_task": 3,
+                           "alone_renders_compared_with_earlier_alone_render": 50,
+                           "alone_renders_after-the-schedules": 45,
                            "modrace_schedules_with_task_suspended_inside_imported_autoescape_block": 800,
                            "modrace_schedules_probing_eval_context_during_such_suspension": 400,
                            "modrace_cases": 6, "modrace_schedules": 800,
@@ -101,13 +153,25 @@ FLOORS = {
                               "gates_released": 1500000, "schedules_fresh_env": 6000,
                               "cases_with_argless_namespace": 9,
                               "cases_with_namespace_from_data_mapping": 3,
-                              "cases_with_imported_macro_awaiting_inside_autoescape_block": 70,
-                              "cases_with_imported_autoescape_macro_and_evalctx_probe": 60,
-                              "schedules_with_task_suspended_inside_imported_autoescape_block": 90000,
-                              "schedules_probing_eval_context_during_such_suspension": 60000,
-                              "evalctx_probe_evaluations": 1000000,
-                              "modrace_schedules_with_task_suspended_inside_imported_autoescape_block": 120000,
-                              "modrace_schedules_probing_eval_context_during_such_suspension": 65000,
+                              "cases_with_imported_macro_awaiting_inside_autoescape_block": 60,
+                              "cases_with_imported_autoescape_macro_and_evalctx_probe": 50,
+                              "schedules_with_task_suspended_inside_imported_autoescape_block": 60000,
+                              "schedules_probing_eval_context_during_such_suspension": 40000,
+                              "evalctx_probe_evaluations": 700000,
+                              "modrace_schedules_with_task_suspended_inside_imported_autoescape_block": 90000,
+                              "modrace_schedules_probing_eval_context_during_such_suspension": 45000,
+                              "cases_with_awaitable_kinds_fragment": 45,
+                              "cases_same_type_family_awaitable_in_one_task_plain_in_another": 25,
+                              "kind_values_awaitable": 500000, "kind_values_plain": 700000,
+                              **{"kind_values:" + k: 40000 for k in sorted(KN.KINDS)},
+                              "kind_values:engine-made-lazy-filter-result": 250000,
+                              "schedules_same_type_family_plain_then_awaitable_in_other_task": 40000,
+                              "schedules_same_type_family_awaitable_then_plain_in_other_task": 40000,
+                              "first_renders_of_a_process_used_as_reference": 8,
+                              "first_renders_of_a_process_same_type_family_plain_then_awaitable_in_other_task": 3,
+                              "first_renders_of_a_process_same_type_family_awaitable_then_plain_in_other_task": 3,
+                              "alone_renders_compared_with_earlier_alone_render": 350,
+                              "alone_renders_after-the-schedules": 330,
                               "modrace_cases": 90, "modrace_schedules": 100000,
                               "modrace_import_while_body_suspended": 80000,
                               "modrace_cases_all_orders_enumerated": 70}},
@@ -126,6 +190,22 @@ class Watch:
         self.overlap = set()   # zones a task was suspended in while another task ran
         self.probes = 0
         self.probes_exposed = 0
+        # (task id, type family, awaitable?, kind) of every value of the kinds workload
+        # handed to the engine, in execution order
+        self.kind_events = []
+
+    def kind_orders(self):
+        """-> set of 'plain-then-awaitable' / 'awaitable-then-plain': some type family
+        went through the engine as a plain value in one task and LATER (resp. EARLIER)
+        as an awaitable in another task."""
+        out = set()
+        seen = {}
+        for tid, fam, aw, _ in self.kind_events:
+            for (otid, oaw) in seen.get(fam, ()):
+                if otid != tid and oaw != aw:
+                    out.add("plain-then-awaitable" if aw else "awaitable-then-plain")
+            seen.setdefault(fam, set()).add((tid, aw))
+        return out
 
     def tid(self):
         try:
@@ -205,6 +285,7 @@ def make_env(case):
 
     env.globals["zone"] = lambda name: holder.watch.zone(name)
     env.globals["ectx"] = ectx
+    env.filters["mk"] = KN.mk_filter
     return env
 
 
@@ -236,7 +317,11 @@ class TaskData:
         s = self.spec
         return {"name": s["name"], "xs": list(s["xs"]), "ys": list(s["ys"]), "skip": s["skip"],
                 "ae": s["ae"], "tree": s["tree"], "g": self.g,
-                "init": {"n": 0, "acc": s["name"]}, "shared_init": self.shared_init}
+                "init": {"n": 0, "acc": s["name"]}, "shared_init": self.shared_init,
+                "k": KN.Kinds(s["name"], self.g, self._note)}
+
+    def _note(self, family, aw, kind):
+        self.watch.kind_events.append((self.tid, family, aw, kind))
 
 
 def solo(loop, env, spec):
@@ -317,9 +402,13 @@ async def run_schedule(loop, env, tasks, gates, order):
     return res, released, deviation, watch
 
 
+_USE = re.compile(r"\[([a-z]+)\.([a-z-]+)=")
+
+
 def first_diff_label(a, b):
     """Label of the fragment that contains the first differing character (labels can
-    follow other output directly, e.g. inside a block of a parent template)."""
+    follow other output directly, e.g. inside a block of a parent template); inside an
+    awaitable-kinds fragment also which value: '<label>:<kind>-via-<channel>'."""
     if a.count(GEN.SEP) != b.count(GEN.SEP) or a.count(GEN.LAB) != b.count(GEN.LAB):
         return "structure"
     pos = next((i for i, (x, y) in enumerate(zip(a, b)) if x != y), min(len(a), len(b)))
@@ -328,7 +417,12 @@ def first_diff_label(a, b):
         return "structure"
     head = a[:i]
     cands = [lab for lab in GEN.ALL_LABELS if head.endswith(lab)]
-    return max(cands, key=len) if cands else "structure"
+    lab = max(cands, key=len) if cands else "structure"
+    if lab == "awaitable-kinds":
+        uses = list(_USE.finditer(a, i, pos + 1))
+        if uses:
+            lab += ":%s-via-%s" % (uses[-1].group(2), uses[-1].group(1))
+    return lab
 
 
 def switches(order):
@@ -342,95 +436,220 @@ def shared_evalctx_key(watch):
             + "+".join(sorted(watch.overlap)))
 
 
-def count_watch(ctx, watch, prefix=""):
-    ctx.count(prefix + "evalctx_probe_evaluations", watch.probes)
-    if watch.probes_exposed:
+def summarize(res, released, dev, watch):
+    """JSON-able record of one executed schedule (also sent back by the pristine
+    helper process)."""
+    out = []
+    for r in res:
+        if isinstance(r, BaseException):
+            out.append({"exc": type(r).__name__, "repr": repr(r)[:300]})
+        else:
+            out.append({"out": r})
+    return {"res": out, "released": released, "dev": bool(dev),
+            "overlap": sorted(watch.overlap), "probes": watch.probes,
+            "probes_exposed": watch.probes_exposed,
+            "kind_orders": sorted(watch.kind_orders()),
+            "kinds_aw": sum(1 for e in watch.kind_events if e[2]),
+            "kinds_plain": sum(1 for e in watch.kind_events if not e[2]),
+            "kinds": {k: sum(1 for e in watch.kind_events if e[3] == k)
+                      for k in sorted({e[3] for e in watch.kind_events})}}
+
+
+def count_watch(ctx, sm, prefix=""):
+    ctx.count(prefix + "evalctx_probe_evaluations", sm["probes"])
+    if sm["probes_exposed"]:
         ctx.count(prefix + "evalctx_probes_while_other_task_inside_imported_autoescape_block",
-                  watch.probes_exposed)
-    if watch.overlap:
+                  sm["probes_exposed"])
+    if sm["overlap"]:
         ctx.count(prefix + "schedules_with_task_suspended_inside_imported_autoescape_block")
-    if watch.overlap and watch.probes_exposed:
+    if sm["overlap"] and sm["probes_exposed"]:
         ctx.count(prefix + "schedules_probing_eval_context_during_such_suspension")
+    if prefix:
+        return
+    ctx.count("kind_values_awaitable", sm["kinds_aw"])
+    ctx.count("kind_values_plain", sm["kinds_plain"])
+    for k, v in sm["kinds"].items():
+        ctx.count("kind_values:" + ("engine-made-lazy-filter-result" if k == "engine" else k), v)
+    for o in sm["kind_orders"]:
+        # a type family went through the engine as a plain value in one task and later
+        # (earlier) as an awaitable in another task
+        ctx.count("schedules_same_type_family_" + o.replace("-", "_") + "_in_other_task")
 
 
-def check_schedule(ctx, case, loop, env, gates, solo_out, order, fresh):
+def shared_evalctx_key_of(overlap):
+    return ("interference:eval-context-of-cached-module-shared-between-tasks:suspended-in="
+            + "+".join(sorted(overlap)))
+
+
+def judge_schedule(ctx, case, gates, ref_out, order, sm, where):
+    """Compare one executed schedule (summary sm) with the alone-outputs ref_out.
+    where: 'warm-env' | 'fresh-env' (this process) | 'pristine-process'."""
+    tasks = case["tasks"]
+    rcase = {"case": case, "gates": gates, "order": list(order), "fresh": where != "warm-env",
+             "where": where}
+    ctx.ev()
+    count_watch(ctx, sm)
+    ctx.count("schedules")
+    ctx.count("gates_released", sm["released"])
+    if where == "fresh-env":
+        ctx.count("schedules_fresh_env")
+    if where == "pristine-process":
+        ctx.count("schedules_in_pristine_process")
+        for o in sm["kind_orders"]:
+            ctx.count("first_renders_of_a_process_same_type_family_" + o.replace("-", "_")
+                      + "_in_other_task")
+    if sm["dev"]:
+        ctx.count("schedules_with_gate_count_deviation")
+    if switches(order) >= 2:
+        ctx.dist((core.h8([case["tpls"], case["tasks"], gates]), list(order), where))
+    ok = True
+    note = ("these were the first renders of the process"
+            if where == "pristine-process" else "environment: " + where)
+    for tid, r in enumerate(sm["res"]):
+        ctx.count("task_outputs_compared")
+        if "exc" in r:
+            ok = False
+            ctx.violation("interference:raises:" + r["exc"],
+                          "task %d (%s) raised %s under order %s but renders alone to %r (%s)"
+                          % (tid, tasks[tid]["main"], r["repr"], list(order), ref_out[tid][:200],
+                             note), rcase)
+        elif r["out"] != ref_out[tid]:
+            ok = False
+            lab = first_diff_label(ref_out[tid], r["out"])
+            key = "interference:" + lab
+            if sm["overlap"] and lab in GEN.LIB_USING_LABELS:
+                key = shared_evalctx_key_of(sm["overlap"])
+            ctx.violation(key,
+                          "task %d (%s, name=%r) under release order %s produced %r, alone "
+                          "%r (first differing fragment: "
+                          "%s; %s; a task was suspended inside these constructs of the cached "
+                          "lib.j2 while others ran: %s; template %r)"
+                          % (tid, tasks[tid]["main"], tasks[tid]["name"], list(order),
+                             r["out"][:400], ref_out[tid][:400], lab, note, sm["overlap"],
+                             case["tpls"][tasks[tid]["main"]][:400]),
+                          rcase)
+    return ok, bool(sm["overlap"])
+
+
+def check_schedule(ctx, case, loop, env, gates, ref_out, order, fresh):
     """-> (all outputs equal, the schedule had a task suspended inside a scoped
     eval-context block of the cached library while others ran)"""
-    tasks = case["tasks"]
-    rcase = {"case": case, "gates": gates, "order": list(order), "fresh": fresh}
     try:
         res, released, dev, watch = loop.run_until_complete(
-            run_schedule(loop, env, tasks, gates, order))
+            run_schedule(loop, env, case["tasks"], gates, order))
     except Stuck as e:
         ctx.inconc("scheduler stuck: %s" % e)
         return False, True
-    ctx.ev()
-    count_watch(ctx, watch)
-    ctx.count("schedules")
-    ctx.count("gates_released", released)
-    if fresh:
-        ctx.count("schedules_fresh_env")
-    if dev:
-        ctx.count("schedules_with_gate_count_deviation")
-    if switches(order) >= 2:
-        ctx.dist((core.h8([case["tpls"], case["tasks"], gates]), list(order)))
+    return judge_schedule(ctx, case, gates, ref_out, order, summarize(res, released, dev, watch),
+                          "fresh-env" if fresh else "warm-env")
+
+
+def rotation(n, first):
+    return tuple((first + j) % n for j in range(n))
+
+
+def persisted_key(lab):
+    return "interference:persisted-in-process:" + lab
+
+
+def inprocess_alone(ctx, case, loop, ref_out, phase, history, order=None):
+    """Every task rendered alone again, each in a brand-new environment, must give its
+    reference alone-output (rendered earlier in this process: as the very first render
+    of the process, or before the schedules of the case): a difference can only come
+    from state that outlived earlier renders at process level.  -> True if all equal."""
     ok = True
-    for tid, r in enumerate(res):
-        ctx.count("task_outputs_compared")
-        if isinstance(r, BaseException):
+    for tid in (order if order is not None else range(len(case["tasks"]))):
+        spec = case["tasks"][tid]
+        rcase = {"case": case, "mode": "persisted", "phase": phase, "tid": tid,
+                 "history": history}
+        ctx.count("alone_renders_compared_with_earlier_alone_render")
+        ctx.count("alone_renders_" + phase)
+        try:
+            o, _ = solo(loop, make_env(case), spec)
+        except Exception as e:  # noqa: BLE001
             ok = False
-            ctx.violation("interference:raises:" + type(r).__name__,
-                          "task %d (%s) raised %r under order %s but renders alone to %r"
-                          % (tid, tasks[tid]["main"], r, list(order), solo_out[tid][:200]),
-                          rcase)
-        elif r != solo_out[tid]:
+            ctx.violation(persisted_key("raises:" + type(e).__name__),
+                          "task %d (%s) rendered alone in a brand-new environment (%s) raised "
+                          "%r; alone earlier in this process it gave %r"
+                          % (tid, spec["main"], phase, e, ref_out[tid][:300]), rcase)
+            continue
+        if o != ref_out[tid]:
             ok = False
-            lab = first_diff_label(solo_out[tid], r)
-            key = "interference:" + lab
-            if watch.overlap and lab in GEN.LIB_USING_LABELS:
-                key = shared_evalctx_key(watch)
-            ctx.violation(key,
-                          "task %d (%s, name=%r) under release order %s produced %r, alone %r "
-                          "(first differing fragment: %s; a task was suspended inside these "
-                          "constructs of the cached lib.j2 while others ran: %s; template %r)"
-                          % (tid, tasks[tid]["main"], tasks[tid]["name"], list(order), r[:400],
-                             solo_out[tid][:400], lab, sorted(watch.overlap),
-                             case["tpls"][tasks[tid]["main"]][:400]),
-                          rcase)
-    return ok, bool(watch.overlap)
+            lab = first_diff_label(ref_out[tid], o)
+            ctx.violation(persisted_key(lab),
+                          "task %d (%s, name=%r) rendered ALONE in a brand-new environment (%s) "
+                          "gives %r; alone earlier in this process %r (first differing "
+                          "fragment: %s): state shared at process level was changed by the "
+                          "renders in between and persisted; template %r"
+                          % (tid, spec["main"], spec["name"], phase, o[:400], ref_out[tid][:400],
+                             lab, case["tpls"][spec["main"]][:400]), rcase)
+    return ok
 
 
-def prepare(ctx, case, loop, maxg=4):
-    """Solo outputs + gate positions; None if the case is unusable."""
+def prepare(ctx, case, loop, first, pristine, maxg=4):
+    """-> (alone-outputs, gate positions); None if the case is unusable (or its alone
+    renders already differ, reported).
+
+    first: the alone renders are made in rotated task order starting with this task, so
+    that over the cases either kind of task comes first.
+    pristine: this process has rendered NOTHING so far (first case of the shard): the
+    tasks are first released one after the other (start gates only, task `first` first)
+    on one environment - `first`'s output is its alone-output in a process whose
+    engine-level state is untouched; then every task is rendered alone and must give
+    the same again."""
     tasks = case["tasks"]
+    n = len(tasks)
+    rot = rotation(n, first)
+    early = None
     try:
-        env0 = make_env(case)
-        solo_out, ncalls = [], []
-        for spec in tasks:
-            o, c = solo(loop, env0, spec)
-            solo_out.append(o)
-            ncalls.append(c)
+        if pristine:
+            res, released, dev, watch = loop.run_until_complete(
+                run_schedule(loop, make_env(case), tasks, [[] for _ in range(n)], rot))
+            sm = summarize(res, released, dev, watch)
+            if any("exc" in r for r in sm["res"]):
+                ctx.count("case_rejected:" + next(r["exc"] for r in sm["res"] if "exc" in r))
+                return None
+            early = [r["out"] for r in sm["res"]]
+            ctx.count("first_renders_of_a_process_used_as_reference")
+            judge_schedule(ctx, case, [[] for _ in range(n)], early, rot, sm, "pristine-process")
+            if not inprocess_alone(ctx, case, loop, early,
+                                   "after-the-first-renders-of-the-process",
+                                   {"first": first}, rot):
+                return None
+        got = {tid: solo(loop, make_env(case), tasks[tid]) for tid in rot}
+        ref_out = early or [got[tid][0] for tid in range(n)]
+        ncalls = [got[tid][1] for tid in range(n)]
         # repeatability in one environment (sequential state is another property's business)
-        for spec, o in zip(tasks, solo_out):
-            o2, _ = solo(loop, env0, spec)
-            if o2 != o:
-                ctx.count("case_skipped_solo_not_repeatable")
-                return None
-        # and in a second fresh environment
-        env1 = make_env(case)
-        for spec, o in zip(tasks, solo_out):
-            if solo(loop, env1, spec)[0] != o:
-                ctx.count("case_skipped_solo_not_repeatable")
-                return None
+        env0 = make_env(case)
+        for _ in range(2):
+            for spec, o in zip(tasks, ref_out):
+                if solo(loop, env0, spec)[0] != o:
+                    ctx.count("case_skipped_solo_not_repeatable")
+                    return None
+    except Stuck as e:
+        ctx.inconc("scheduler stuck: %s" % e)
+        return None
     except Exception as e:
         ctx.count("case_rejected:" + type(e).__name__)
         return None
     gates = [GEN.choose_gates(spec["gate_picks"], c, maxg) for spec, c in zip(tasks, ncalls)]
-    return solo_out, gates
+    return ref_out, gates
 
 
-def run_case(ctx, case, quick, rng, loop):
-    prep = prepare(ctx, case, loop)
+def kind_families(src):
+    """-> {family: set of awaitability flags} of the kinds workload in a template."""
+    fam = {}
+    for m in re.finditer(r"\[[a-z]+\.([a-z-]+)=", src):
+        if m.group(1) in KN.KINDS:
+            aw, f, _ = KN.KINDS[m.group(1)]
+            fam.setdefault(f, set()).add(bool(aw))
+    for m in re.finditer(r"k\.note\('([a-z_-]+)', 0\)", src):
+        fam.setdefault(m.group(1), set()).add(False)
+    return fam
+
+
+def run_case(ctx, case, quick, rng, loop, first=0, pristine=False):
+    prep = prepare(ctx, case, loop, first % len(case["tasks"]), pristine)
     if prep is None:
         return
     solo_out, gates = prep
@@ -452,6 +671,15 @@ def run_case(ctx, case, quick, rng, loop):
         ctx.count("cases_with_imported_macro_awaiting_inside_autoescape_block")
         if any("lib.sense" in x for x in srcs):
             ctx.count("cases_with_imported_autoescape_macro_and_evalctx_probe")
+    fams = [kind_families(x) for x in srcs]
+    if any(fams):
+        ctx.count("cases_with_awaitable_kinds_fragment")
+    if any(f in fb and (True in fa[f] and False in fb[f] or False in fa[f] and True in fb[f])
+           for i, fa in enumerate(fams) for j, fb in enumerate(fams) if i != j
+           and tasks[i]["main"] != tasks[j]["main"] for f in fa):
+        # one task hands the engine an awaitable of a type family of which another task
+        # hands it a plain value
+        ctx.count("cases_same_type_family_awaitable_in_one_task_plain_in_another")
     for t in tasks:
         src = case["tpls"][t["main"]]
         for lab in sorted({seg.split(GEN.LAB, 1)[0] for seg in src.split(GEN.SEP) if GEN.LAB in seg}):
@@ -480,12 +708,14 @@ def run_case(ctx, case, quick, rng, loop):
     warm = make_env(case)
     nfresh = 12 if quick else 60
     executed = 0
+    last = None
     for i, order in enumerate(orders):
         # the first few orders of the list, and then every 40th, run in a brand-new
         # environment (first import of the shared library happens inside the race)
         fresh = i < nfresh or i % 40 == 0
         env = make_env(case) if fresh else warm
         ok, overlapped = check_schedule(ctx, case, loop, env, gates, solo_out, order, fresh)
+        last = list(order)
         if not fresh and (overlapped or not ok):
             # interleaved save / restore of a shared eval context (or whatever made the
             # outputs differ) may have damaged the long-lived environment for good; later
@@ -497,6 +727,8 @@ def run_case(ctx, case, quick, rng, loop):
             ctx.count("cases_cut_by_time")
             break
     ctx.extra["interleavings_executed"] = ctx.extra.get("interleavings_executed", 0) + executed
+    # ... and alone again, after the concurrent schedules ran in this process
+    inprocess_alone(ctx, case, loop, solo_out, "after-the-schedules", {"gates": gates, "order": last})
 
 
 # ------------------------------------------------------------------ module-body races
@@ -622,7 +854,8 @@ def check_modrace(ctx, case, loop, solo_out, choices):
     ctx.count("modrace_schedules")
     ctx.count("modrace_gates_released", len(trace))
     ctx.count("modrace_module_body_gates", sum(mg_hits))
-    count_watch(ctx, watch, "modrace_")
+    count_watch(ctx, {"probes": watch.probes, "probes_exposed": watch.probes_exposed,
+                      "overlap": sorted(watch.overlap)}, "modrace_")
     if overlap:
         # a task reached its import (and, with an uncached module, entered the module
         # body) while another task was suspended inside the module body
@@ -655,6 +888,32 @@ def check_modrace(ctx, case, loop, solo_out, choices):
     return factors, trace
 
 
+def modrace_alone_again(ctx, case, loop, ref):
+    """After the schedules: every task alone again (fresh environment each) must give
+    what it gave alone before them; a difference is interference that persisted in
+    the process."""
+    try:
+        got = modrace_solo(loop, case)
+    except Exception as e:
+        got = [(repr(e), -1)] * len(ref)
+    if got is None:
+        ctx.count("case_skipped_solo_not_repeatable")
+        return
+    for tid, (g, r) in enumerate(zip(got, ref)):
+        ctx.count("alone_renders_compared_with_earlier_alone_render")
+        ctx.count("alone_renders_after-the-schedules")
+        if g[0] != r[0]:
+            spec = case["tasks"][tid]
+            lab = case["tpls"][spec["main"]].split(GEN.LAB, 1)[0]
+            ctx.violation(persisted_key(lab),
+                          "task %d (%s) rendered ALONE in a brand-new environment after the "
+                          "schedules of this case gives %r, before them %r: state shared at "
+                          "process level was changed by the concurrent renders and persisted"
+                          % (tid, spec["main"], g[0][:300], r[0][:300]),
+                          {"kind": "modrace", "mode": "persisted", "case": case, "choices": [],
+                           "trace": []})
+
+
 def run_modcase(ctx, case, quick, rng, loop):
     try:
         solo_out = modrace_solo(loop, case)
@@ -664,6 +923,11 @@ def run_modcase(ctx, case, quick, rng, loop):
     if solo_out is None:
         ctx.count("case_skipped_solo_not_repeatable")
         return
+    _run_modcase(ctx, case, quick, rng, loop, solo_out)
+    modrace_alone_again(ctx, case, loop, solo_out)
+
+
+def _run_modcase(ctx, case, quick, rng, loop, solo_out):
     cap = 120 if quick else 3000
     ctx.count("modrace_cases")
     ctx.count("modrace_cases_%d_tasks" % len(case["tasks"]))
@@ -724,11 +988,19 @@ def run(ctx):
             if i % 2 == 1:
                 run_modcase(ctx, GEN.gen_modcase(rng), quick, ctx.rng("case%d" % i), loop)
             else:
-                # every other generated-template case pairs a task that awaits inside an
-                # autoescape block of the cached library with a task that probes the
-                # library's eval context
-                case = GEN.gen_case(rng, force_evalctx=(i % 4 == 2))
-                run_case(ctx, case, quick, ctx.rng("case%d" % i), loop)
+                # of the generated-template cases every other one pairs a task that awaits
+                # inside an autoescape block of the cached library with a task that probes
+                # the library's eval context (i % 4 == 2), and every third one pairs a task
+                # that starts with plain / lazy values with a task that starts with
+                # awaitables of the same type families (i % 6 == 0).  The FIRST case of
+                # the shard is such a pair over all families: its first renders are the
+                # first renders of this process (new processes are far too expensive on
+                # this machine to start more of them); the shard number decides which of
+                # the two tasks goes first
+                case = GEN.gen_case(rng, force_evalctx=(i % 4 == 2), force_kinds=(i % 6 == 0),
+                                    all_families=(i == 0))
+                run_case(ctx, case, quick, ctx.rng("case%d" % i), loop,
+                         first=ctx.shard + i // 2, pristine=(i == 0))
             i += 1
     finally:
         loop.run_until_complete(loop.shutdown_asyncgens())
@@ -741,19 +1013,34 @@ def replay(ctx, obj):
     try:
         if obj.get("kind") == "modrace":
             solo_out = modrace_solo(loop, case)
-            if solo_out is not None:
-                check_modrace(ctx, case, loop, solo_out, list(obj["choices"]))
+            if solo_out is None:
+                return
+            check_modrace(ctx, case, loop, solo_out, list(obj["choices"]))
+            if obj.get("mode") == "persisted":
+                modrace_alone_again(ctx, case, loop, solo_out)
             return
-        prep = prepare(ctx, case, loop)
+        h = obj.get("history") or {}
+        if obj.get("where") == "pristine-process" or "first" in h:
+            # this replay process has rendered nothing either: same first renders
+            first = h["first"] if "first" in h else obj["order"][0]
+            prepare(ctx, case, loop, first, True)
+            return
+        prep = prepare(ctx, case, loop, 0, False)
         if prep is None:
             return
         solo_out, _ = prep
+        if obj.get("mode") == "persisted":
+            if h.get("order"):
+                check_schedule(ctx, case, loop, make_env(case), h["gates"], solo_out,
+                               tuple(h["order"]), True)
+            inprocess_alone(ctx, case, loop, solo_out, "after-the-schedules", None)
+            return
         env = make_env(case)
         if not obj.get("fresh", True):
             # the failing schedule ran in an environment that had rendered before
+            # (sequential order: no task is suspended while another runs)
             counts = [len(g) + 1 for g in obj["gates"]]
             warm_order = tuple(i for i, c in enumerate(counts) for _ in range(c))
-            # (sequential order: no task is suspended while another runs)
             loop.run_until_complete(run_schedule(loop, env, case["tasks"], obj["gates"],
                                                  warm_order))
         check_schedule(ctx, case, loop, env, obj["gates"], solo_out,
